@@ -702,6 +702,48 @@ pub async fn run_c14(w: &mut World, m: &mut Mon, r: &mut R, t: &Twin) {
             let _ = w.exec(m, &[i], &[&admin]).await;
         }
     }
+    // receivership on a paused bank: a liquidator's withdraw / repay must not touch it either
+    {
+        let receiver = w.user_kp(w.accts[t.liquidator0].user);
+        let tas = w.users[w.accts[t.liquidator0].user].tas.clone();
+        let has_rec = w.shadow.contains_key(&ix::liq_record_key(&w.accts[t.acct0].key));
+        let mut banks = vec![("bank a", t.a0, false)];
+        if let Some(vb) = t.venue {
+            // (solend_withdraw is not among the instructions a receivership bracket may contain)
+            banks.push(("kamino", vb[0], true));
+            banks.push(("drift", vb[4], true));
+        }
+        for (bn, b, is_venue) in banks {
+            // bracket: start, withdraw 1 from `b` (through the venue where it is one), repay, end
+            let mk = |w: &World| -> Vec<Instruction> {
+                let mut ixs = receivership_ixs(w, t.acct0, &receiver, Some((t.a0, 1, false)), Some((t.b0, 1000, false)), !has_rec, &tas);
+                if is_venue {
+                    // replace the withdraw by the venue withdraw of the same account
+                    let pos = ixs.iter().position(|i| Kind::of(&i.data) == Kind::Withdraw).unwrap();
+                    let ta = w.users[w.accts[t.liquidator0].user].tas[w.banks[b].mint];
+                    ixs[pos] = w.ix_venue_withdraw(t.acct0, b, receiver.pubkey(), ta, 1, None);
+                }
+                ixs
+            };
+            let ctl = w.probe(m, &mk(w), &[&receiver]).await;
+            if !ctl.ok() {
+                m.r.count(&format!("C14.receivership_control_failed/{}", bn));
+                m.r.note(&format!("no positive control for receivership withdraw on {} ({})", bn, ctl.err_string()));
+                continue;
+            }
+            m.r.count("C14.receivership_controls_ok");
+            let i = set_state(w.banks[b].key, BankOperationalState::Paused);
+            if w.exec(m, &[i], &[&admin]).await.ok() {
+                let o = w.probe(m, &mk(w), &[&receiver]).await;
+                m.r.eval();
+                m.r.count("C14.receivership_on_paused_bank_cells");
+                m.r.distinct(&("rcv-paused", bn, o.ok(), o.custom_code()));
+                // the per-instruction monitor flags an accepted withdraw on the paused bank
+                let i = set_state(w.banks[b].key, BankOperationalState::Operational);
+                let _ = w.exec(m, &[i], &[&admin]).await;
+            }
+        }
+    }
     // reduce-only collateral: worth nothing for new borrowing, full for liquidation purposes
     // (with an e-mode entry in force for the collateral's tag, so that the e-mode path is covered)
     if r.gen_bool(0.7) {
@@ -815,6 +857,15 @@ pub async fn run_c14(w: &mut World, m: &mut Mon, r: &mut R, t: &Twin) {
             m.r.distinct(&("expired", dt, o.ok(), o.custom_code()));
             if !o.ok() && o.custom_code() != Some(err::PROTOCOL_PAUSED) {
                 m.r.note(&format!("deposit after expiry failed for another reason: {}", o.err_string()));
+            }
+            // every gated user instruction is accepted again once the pause has run out, without
+            // anyone refreshing the group's cache (the rejection monitor judges a ProtocolPaused
+            // answer at this point)
+            for (ixn, kp) in users_ops(w) {
+                let o = w.probe(m, &[ixn], &[&kp]).await;
+                m.r.eval();
+                m.r.count("C14.after_expiry_cells");
+                m.r.distinct(&("expired-op", dt, o.ok(), o.custom_code()));
             }
         }
         // clean up the global state for the next world steps
